@@ -1009,7 +1009,15 @@ func (r *Raft) leadershipTransfer(id ServerID, address ServerAddress, repl *foll
 	for atomic.LoadUint64(&repl.nextIndex) <= r.getLastIndex() {
 		err := &deferError{}
 		err.init()
-		repl.triggerDeferErrorCh <- err
+		// The replication routine may be busy (inside an RPC, sleeping in its
+		// back-off) or gone for good (it stops as soon as the peer reports a
+		// newer term): do not wait for it beyond the transfer itself.
+		select {
+		case repl.triggerDeferErrorCh <- err:
+		case <-stopCh:
+			doneCh <- nil
+			return
+		}
 		select {
 		case err := <-err.errCh:
 			if err != nil {
